@@ -33,6 +33,7 @@ type TransSpec struct {
 	Globals    []string // package-level variables treated as explicit state: read -> extra parameter, written -> extra result
 	WrapSigned bool     // int8/16/32/64 wrap around (swrap N) instead of being unbounded; `int` stays unbounded
 	Frags      []FragSpec
+	T15        T15Spec // [ext:T15] (gen/trans_ext15.go) byte-sequence type parameters, real imports, error kinds, out-parameters
 }
 
 type unsupported struct{ msg string }
@@ -114,6 +115,7 @@ type funcInfo struct {
 	greads, gwrites map[*globalInfo]bool // package-level state read / written (directly or through calls)
 	ignoredRecv     bool                 // a receiver of an untranslatable type that the body never mentions
 	frag            *fragInfo            // a loop fragment of a function instead of a whole function
+	outs            []int                // [ext:T15] indices of the slice parameters written in place (returned before the results)
 }
 
 type Translator struct {
@@ -127,6 +129,7 @@ type Translator struct {
 	global  map[string]bool // Coq names that locals must not shadow
 	seq     *seqState       // [seq] sequential reading of atomics, places, timed tails (trans_seq.go)
 	ext20                   // [ext:T20] state of gen/trans_ext20.go
+	ext15                   // [ext:T15] state of gen/trans_ext15.go
 }
 
 type stubImporter struct{}
@@ -196,6 +199,9 @@ func (t *Translator) typeOf(ty types.Type, n ast.Node) gtype {
 			return gtype{k: kSlice, isArr: true, arr: x.Len()}
 		}
 	case *types.TypeParam:
+		if g, ok := t.typeParam15(x); ok { // [ext:T15] T ~string | ~[]byte -> its byte-list instantiation
+			return g
+		}
 		return gtype{k: kElem}
 	case *types.Slice:
 		e := t.typeOf(x.Elem(), n)
@@ -282,6 +288,7 @@ func Translate(repo string, spec TransSpec) (out string, err error) {
 	t.info = &types.Info{Types: map[ast.Expr]types.TypeAndValue{}, Defs: map[*ast.Ident]types.Object{},
 		Uses: map[*ast.Ident]types.Object{}, Selections: map[*ast.SelectorExpr]*types.Selection{}}
 	conf := types.Config{Importer: stubImporter{}, Error: func(error) {}}
+	conf.Importer = t.importer15(spec, conf.Importer) // [ext:T15] real packages of the module, typed fmt.Errorf / encoding/hex stubs
 	tpkg, _ := conf.Check(spec.Dir, p.Fset, p.Files, t.info)
 	if tpkg == nil {
 		return "", fmt.Errorf("type checking %s failed", spec.Dir)
@@ -291,6 +298,7 @@ func Translate(repo string, spec TransSpec) (out string, err error) {
 	}
 	t.seqInit(spec, tpkg, p.Files) // [seq]
 	t.setup20(p, tpkg, spec)       // [ext:T20]
+	t.setup15(spec)                // [ext:T15]
 	for _, f := range p.Files {
 		for _, d := range f.Decls {
 			if fd, ok := d.(*ast.FuncDecl); ok && fd.Body != nil {
@@ -374,6 +382,7 @@ func Translate(repo string, spec TransSpec) (out string, err error) {
 		fmt.Fprintf(&fb, "#[export] Hint Unfold %s : go2v.\n", fi.name)
 	}
 	sb.WriteString(t.consts20())
+	sb.WriteString(t.consts15()) // [ext:T15] error kinds
 	sb.WriteString(fb.String())
 	return sb.String(), nil
 }
@@ -571,6 +580,7 @@ func (t *Translator) assigned(n ast.Node, set map[types.Object]bool) {
 					}
 				}
 			}
+			t.outAssigned15(x, func(o types.Object) { set[o] = true }) // [ext:T15] slices written through out-parameters
 		}
 		return true
 	})
@@ -630,6 +640,9 @@ func (t *Translator) analyse() {
 				}
 			}
 			if t.globals20(fi) { // [ext:T20]
+				changed = true
+			}
+			if t.outs15(fi) { // [ext:T15] slice parameters written in place
 				changed = true
 			}
 		}
